@@ -1357,39 +1357,81 @@ var ruleLimitSlice = &core.Rule{ID: "R04.1", Min: 5,
 			core.Bail("%s: limit load or walk call not found", f.Name())
 		}
 		s.Check(wlim == ssa.Value(lim), "walk limit is the snapshot", c.Pos(wcall.Pos()), "atomic load", "the limit argument of the walk is not the snapshot used for slicing")
+		// the cut may be delegated to a helper h(in, snapshot): the same table is then taken over h's returns
+		var cutFn *ssa.Function
+		var hIn, hLim ssa.Value
+		if hc, ok := wbuf.(*ssa.Call); ok {
+			if h := hc.Call.StaticCallee(); h != nil && core.InMod(h) && h.Blocks != nil && h.Signature.Results().Len() == 1 && core.IsByteSlice(h.Signature.Results().At(0).Type()) {
+				for i, a := range hc.Call.Args {
+					if a == ssa.Value(in) {
+						hIn = h.Params[i]
+					}
+					if a == ssa.Value(lim) {
+						hLim = h.Params[i]
+					}
+				}
+				if hIn != nil && hLim != nil {
+					cutFn = h
+				}
+			}
+		}
 		cases := []struct {
 			name      string
 			l, n      int64
 			wantWhole bool
 		}{{"limit=0,len=0", 0, 0, true}, {"limit=0,len=9", 0, 9, true}, {"len<limit", 5, 4, true}, {"len==limit", 5, 5, true}, {"len>limit", 5, 6, false}, {"len>>limit", 1, 4096, false}}
 		for _, cs := range cases {
-			ev := newEval(c)
-			ev.Env = fde.Env{lim: constant.MakeInt64(cs.l)}
-			for _, l := range lens {
-				ev.Env[l] = constant.MakeInt64(cs.n)
-			}
-			exits, err := ev.Walk(f.Blocks[0], nil, func(b *ssa.BasicBlock) bool { return b == wcall.Block() }, 0)
 			key := "order type " + cs.name
-			if err != nil || len(exits) != 1 {
-				s.Und(key, c.Pos(f.Pos()), fmt.Sprintf("slicing decision not evaluable: %v", err))
-				continue
-			}
-			arg := wbuf
-			if ph, ok := arg.(*ssa.Phi); ok && ph.Block() == wcall.Block() {
-				for k, p := range ph.Block().Preds {
-					if p == exits[0].From {
-						arg = ph.Edges[k]
+			var arg ssa.Value
+			inV, limV := ssa.Value(in), ssa.Value(lim)
+			if cutFn != nil {
+				inV, limV = hIn, hLim
+				ev := newEval(c)
+				ev.Env = fde.Env{hLim: constant.MakeInt64(cs.l)}
+				for _, l := range lenCallsOf(cutFn, hIn) {
+					ev.Env[l] = constant.MakeInt64(cs.n)
+				}
+				exits, err := ev.Walk(cutFn.Blocks[0], nil, nil, 0)
+				if err != nil || len(exits) != 1 || exits[0].Ret == nil {
+					s.Und(key, c.Pos(cutFn.Pos()), fmt.Sprintf("slicing decision of %s not evaluable: %v", cutFn.Name(), err))
+					continue
+				}
+				arg = exits[0].Ret.Results[0]
+				if ph, ok := arg.(*ssa.Phi); ok && ph.Block() == exits[0].Ret.Block() {
+					for k, p := range ph.Block().Preds {
+						if p == exits[0].From {
+							arg = ph.Edges[k]
+						}
+					}
+				}
+			} else {
+				ev := newEval(c)
+				ev.Env = fde.Env{lim: constant.MakeInt64(cs.l)}
+				for _, l := range lens {
+					ev.Env[l] = constant.MakeInt64(cs.n)
+				}
+				exits, err := ev.Walk(f.Blocks[0], nil, func(b *ssa.BasicBlock) bool { return b == wcall.Block() }, 0)
+				if err != nil || len(exits) != 1 {
+					s.Und(key, c.Pos(f.Pos()), fmt.Sprintf("slicing decision not evaluable: %v", err))
+					continue
+				}
+				arg = wbuf
+				if ph, ok := arg.(*ssa.Phi); ok && ph.Block() == wcall.Block() {
+					for k, p := range ph.Block().Preds {
+						if p == exits[0].From {
+							arg = ph.Edges[k]
+						}
 					}
 				}
 			}
-			whole := arg == ssa.Value(in)
+			whole := arg == inV
 			cut := false
-			if sl, ok := arg.(*ssa.Slice); ok && sl.X == ssa.Value(in) && sl.Low == nil && sl.Max == nil && sl.High != nil {
+			if sl, ok := arg.(*ssa.Slice); ok && sl.X == inV && sl.Low == nil && sl.Max == nil && sl.High != nil {
 				h := sl.High
 				if cv, ok := h.(*ssa.Convert); ok {
 					h = cv.X
 				}
-				cut = h == ssa.Value(lim)
+				cut = h == limV
 			}
 			switch {
 			case cs.wantWhole:
